@@ -9,7 +9,7 @@ MUST = {
  "C03": ["c03.consumers_checked", "c03.deliveries_compared", "c03.gets_compared", "c03.returns_compared", "probe.big_body_sessions", "probe.multi_frame_content", "c03.flood_sessions"],
  "C04": ["c04.calls_paired", "c04.nowait_calls", "c04.runs_with_overlapping_calls", "c04.server_cancels_scripted"],
  "C05": ["c05.fault_fired", "c05.calls_after_death", "c05.runs_with_call_in_flight_at_death", "c05.closed_by_drop", "c05.kind.eof-at-offset", "c05.kind.reset-at-offset", "c05.kind.write-error-at-call", "c05.kind.corrupt-frame-end", "c05.kind.corrupt-frame-type", "c05.kind.silence", "c05.kind.server-close", "c05.kind.client-exception"],
- "C06": ["c06.cut_inside_frame", "c06.deliveries_timed", "c06.glued_to_open_ok", "c06.eof_with_last_segment", "c06.ending.eof", "c06.ending.malformed", "c06.ending.connection close"],
+ "C06": ["c06.cut_inside_frame", "c06.deliveries_timed", "c06.glued_to_open_ok", "c06.close_glued_to_open_ok", "c06.eof_with_last_segment", "c06.ending.eof", "c06.ending.malformed", "c06.ending.connection close"],
  "C07": ["c07.expect.ClientException", "c07.expect.DuplicateConsumerTag", "c07.expect.FrameUnexpected", "c07.expect.ReceivedFrameWithBogusChannelId", "c07.expect.UnknownConsumerTag", "c07.giant_announced_size", "c07.busy_writer_cases"],
  "C08": ["c08.client_close_runs", "c08.server_close_runs", "c08.heartbeat_sessions", "c08.both_sides_close_sessions"],
  "C09": ["c09.closed_channels_checked", "c09.call_in_flight_at_close", "c09.consumers_on_closed_channel", "c09.reopen_attempts", "c09.ack_errors_in_drain_sequenced", "c09.cancel_just_before_close_directed"],
